@@ -1,0 +1,57 @@
+//go:build verif
+
+// Machine-checked contracts (Gobra-style //@ comments) for the verification harness in /verif.
+// This file contains no code; it is compiled only under the build tag "verif".
+package evm
+
+// ---------------------------------------------------------------------------------------------
+// transaction execution (C09)
+
+// the signature-checking worker marks a queue entry "checked" only when it holds a decoded transaction
+// without error; everything else (empty bytes, decode error, bad signature) is "failed" with its error set
+//@ func tryValidate
+//@   props C09 C05
+//@   requires tx != nil
+//@   ensures  [checked-means-executable] tx.status == 3 && old(tx.status) == 1 ==> tx.tx != nil && tx.err == nil
+//@   ensures  [failed-has-an-error] tx.status == 4 && old(tx.status) == 1 ==> tx.err != nil
+//@   ensures  [only-claims-fresh-entries] old(tx.status) != 1 ==> tx.status == old(tx.status) && tx.err == old(tx.err)
+
+//@ spec nonceOf(st Ref, a common.Address) Int
+//@ spec senderOf(signer Iface, tx Ref) common.Address
+
+// key-value transactions: applied only at the sender's current nonce, which then grows by exactly one
+//@ ghost gNonceSet Int
+//@ ghost gNonceAddr common.Address
+//@ func (*EVMApp).executeKVTx
+//@   props C09
+//@   requires app != nil && state != nil && tx != nil && len(txDataOf(tx)) >= len(rtypes.KVTxType)
+//@   atcall SetNonce assert [nonce-raised-by-exactly-one-for-the-sender] arg_addr == senderOf(app.Signer, tx) && arg_nonce == (nonceOf(state, senderOf(app.Signer, tx)) + 1) % 18446744073709551616 && nonceOf(state, senderOf(app.Signer, tx)) == txNonce(tx)
+//@   ensures  [applied-only-at-current-nonce] result1 == nil ==> calls(SetNonce) == 1
+//@   ensures  [rejected-leaves-nonce] result1 != nil ==> calls(SetNonce) == 0 && result0 == nil
+
+// per-transaction epilogue: a failed transaction is rolled back to the snapshot taken before it ran and
+// contributes nothing to the block's receipts; a successful one contributes exactly its own results
+//@ func (*EVMApp).genExecFun$1$2
+//@   props C09 C05
+//@   requires app != nil && state != nil && res != nil
+//@   atcall RevertToSnapshot assert [revert-to-the-snapshot-taken-before-the-transaction] arg_revid == stateSnapshot && arg_self == state
+//@   ensures  [failed-tx-is-reverted] err != nil ==> calls(RevertToSnapshot) == 1
+//@   ensures  [failed-tx-adds-nothing] err != nil ==> app.receipts == old(app.receipts) && app.kvs == old(app.kvs) && app.keyValueHistories == old(app.keyValueHistories) && res.ValidTxs == old(res.ValidTxs)
+//@   ensures  [failed-tx-is-reported-invalid] err != nil ==> len(res.InvalidTxs) == old(len(res.InvalidTxs)) + 1
+//@   ensures  [good-tx-is-not-reverted] err == nil ==> calls(RevertToSnapshot) == 0 && len(res.ValidTxs) == old(len(res.ValidTxs)) + 1 && res.InvalidTxs == old(res.InvalidTxs)
+//@   ensures  [good-tx-adds-exactly-its-results] err == nil ==> len(app.receipts) == old(len(app.receipts)) + len(temReceipt) && len(app.kvs) == old(len(app.kvs)) + len(temKv)
+
+// per-transaction prologue: the snapshot is taken before anything of the transaction executes
+//@ func (*EVMApp).genExecFun$1
+//@   props C09
+//@   requires app != nil && app.currentState != nil
+//@   ensures  [snapshot-taken-first] calls(Snapshot) == 1
+
+// ---------------------------------------------------------------------------------------------
+// determinism (C05): every per-block accumulator is empty again after the commit
+
+//@ func (*EVMApp).OnCommit
+//@   props C05
+//@   requires app != nil && app.currentState != nil && app.pool != nil && block != nil && block.Header != nil
+//@   ensures  [accumulators-reset] result1 == nil ==> app.receipts == nil && app.kvs == nil
+//@   atcall Commit assert [commit-the-executed-state] arg_s == app.currentState
